@@ -653,3 +653,26 @@ package builder
 
 //@ func space
 //@   props C13
+
+// ---- C08: what is emitted for one switch case ----
+// @ignore leaves the zero value (a comment), @panic panics, @error returns an error through the method's error
+// result (refused when the explicit method has none), any other @action is invalid; a member name must exist on
+// the target enum ("some source member has no such target" is an error) and is assigned qualified by the
+// target type's package.
+//@ func caseAction
+//@   props C08 C03
+//@   propagates
+//@   ensures targetName == "@ignore" ==> err == nil && result == jen.Code(jen.Comment("ignored"))
+//@   ensures targetName == "@panic" ==> err == nil && result == jen.Code(jen.Panic(jen.Qual("fmt", "Sprintf").Call(jen.Lit("unexpected enum element: %v"), sourceID.Code.Clone())))
+//@   ensures targetName == "@error" && err == nil ==> result != nil
+//@   at call gen.ReturnError#1 assert arg0 == ctx && same(arg1, errPath) && targetName == "@error"
+//@   ensures strings.HasPrefix(targetName, "@") && targetName != "@ignore" && targetName != "@panic" && targetName != "@error" ==> err != nil
+//@   ensures !strings.HasPrefix(targetName, "@") ==> (err == nil) == has(targetEnum.Members, targetName)
+//@   ensures !strings.HasPrefix(targetName, "@") && err == nil ==> result == jen.Code(nameVar.Clone().Op("=").Add(jen.Qual(target.NamedType.Obj().Pkg().Path(), targetName)))
+
+// equal source values must agree on the target (value or action)
+//@ func enumTargetMismatches
+//@   props C08
+//@   pure
+//@   ensures !strings.HasPrefix(targetName, "@") && !strings.HasPrefix(previous.Target, "@") ==> result == (targetEnum.Members[previous.Target] != targetEnum.Members[targetName])
+//@   ensures strings.HasPrefix(targetName, "@") || strings.HasPrefix(previous.Target, "@") ==> result == (targetName != previous.Target)
